@@ -186,7 +186,9 @@ func verifRoundTripRollout(src *Rollout, hub *v1beta1.Rollout, back *Rollout) {
 //@ ensures never_fails: result == nil
 //@ ensures workload_ref: hubBR(dst).Spec.WorkloadRef.APIVersion == src.Spec.TargetRef.WorkloadRef.APIVersion && hubBR(dst).Spec.WorkloadRef.Kind == src.Spec.TargetRef.WorkloadRef.Kind && hubBR(dst).Spec.WorkloadRef.Name == src.Spec.TargetRef.WorkloadRef.Name
 //@ ensures plan: samePlan(hubBR(dst), src)
-//@ ensures style: hubBR(dst).Spec.ReleasePlan.RollingStyle == ite(toLower(src.Annotations["rollouts.kruise.io/rolling-style"]) == toLower("BlueGreen"), "BlueGreen", ite(toLower(src.Annotations["rollouts.kruise.io/rolling-style"]) == toLower("Canary"), "Canary", ite(toLower(src.Annotations["rollouts.kruise.io/rolling-style"]) == toLower("Partition"), "Partition", "")))
+// the style annotation, when it names a style, wins; otherwise the style is the one written in spec.releasePlan.rollingStyle
+//@ define effStyle(b) = ite(toLower(b.Annotations["rollouts.kruise.io/rolling-style"]) == toLower("BlueGreen"), "BlueGreen", ite(toLower(b.Annotations["rollouts.kruise.io/rolling-style"]) == toLower("Canary"), "Canary", ite(toLower(b.Annotations["rollouts.kruise.io/rolling-style"]) == toLower("Partition"), "Partition", b.Spec.ReleasePlan.RollingStyle)))
+//@ ensures style: hubBR(dst).Spec.ReleasePlan.RollingStyle == old(effStyle(src))
 //@ ensures status: sameBRStatus(hubBR(dst), src)
 //@ ensures framed: unchangedOutside(hubBR(dst))
 //@ loop 1 invariant framed: unchangedOutside(obj)
@@ -216,3 +218,19 @@ func verifRoundTripRollout(src *Rollout, hub *v1beta1.Rollout, back *Rollout) {
 //@ loop 4 invariant appended_fresh: cap(dst.Status.Conditions) == 0 || fresh(dst.Status.Conditions)
 //@ loop 1 invariant range: -1 <= rangeindex && rangeindex < len(srcSpec.ReleasePlan.Batches) && len(dst.Spec.ReleasePlan.Batches) == rangeindex + 1
 //@ loop 1 invariant converted: forall j :: 0 <= j && j <= rangeindex ==> sameIOS(dst.Spec.ReleasePlan.Batches[j].CanaryReplicas, srcSpec.ReleasePlan.Batches[j].CanaryReplicas)
+
+// ---------- round trip of a BatchRelease: v1alpha1 -> hub -> v1alpha1 (harness; compiled only under the tag "verif") ----------
+func verifRoundTripBatchRelease(src *BatchRelease, hub *v1beta1.BatchRelease, back *BatchRelease) {
+	if err := src.ConvertTo(hub); err != nil {
+		return
+	}
+	_ = back.ConvertFrom(hub)
+}
+
+//@ func verifRoundTripBatchRelease
+//@ props C20
+//@ requires src != nil && hub != nil && back != nil && backing(src) != backing(back)
+//@ requires admitted: src.Spec.TargetRef.WorkloadRef != nil
+//@ ensures workload_ref: back.Spec.TargetRef.WorkloadRef != nil && back.Spec.TargetRef.WorkloadRef.APIVersion == src.Spec.TargetRef.WorkloadRef.APIVersion && back.Spec.TargetRef.WorkloadRef.Kind == src.Spec.TargetRef.WorkloadRef.Kind && back.Spec.TargetRef.WorkloadRef.Name == src.Spec.TargetRef.WorkloadRef.Name
+//@ ensures style: back.Spec.ReleasePlan.RollingStyle == old(effStyle(src))
+//@ ensures status: sameBRStatus(back, src)
